@@ -21,11 +21,13 @@ package definition
 //@   lpost [eq] forall k string :: (k in b) ==> (k in a)
 
 //@ func strSliceEquals
+//@   safety
 //@   ensures [eq] res <==> extEq(s1, s2)
 //@   modifies nothing
 //@   loop 1 invariant [prefix] 0 <= $i + 1 && $i + 1 <= len(s1) && len(s1) == len(s2) && forall k :: 0 <= k && k <= $i ==> s1[k] == s2[k]
 
 //@ func (TaskDef).Equals
+//@   safety
 //@   ensures [C17.eq] res <==> extEq(d, otherDef)
 //@   modifies nothing
 //@   loop 1 invariant [env] len(d.Env) == len(otherDef.Env) && extEq(d.Script, otherDef.Script) && extEq(d.DependsOn, otherDef.DependsOn) && d.AllowFailure == otherDef.AllowFailure && forall k string :: $seen[k] ==> (k in d.Env) && (k in otherDef.Env) && d.Env[k] == otherDef.Env[k]
@@ -33,6 +35,7 @@ package definition
 
 //@ pure depsOK(d PipelineDef) bool = forall t string, i :: (t in d.Tasks) && 0 <= i && i < len(d.Tasks[t].DependsOn) ==> (d.Tasks[t].DependsOn[i] in d.Tasks)
 //@ func (PipelineDef).validate
+//@   safety
 //@   ensures [C17.valid] res == nil <==> (d.Concurrency >= 1 && (d.QueueLimit == nil || *d.QueueLimit >= 0) && d.StartDelay >= 0 && !(d.StartDelay > 0 && d.QueueLimit != nil && *d.QueueLimit == 0) && depsOK(d))
 //@   modifies nothing
 //@   loop 1 invariant [seen] forall t string, i :: $seen[t] && 0 <= i && i < len(d.Tasks[t].DependsOn) ==> (d.Tasks[t].DependsOn[i] in d.Tasks)
@@ -40,6 +43,7 @@ package definition
 //@   loop 2 invariant [cur] (taskName in d.Tasks) && extEq(taskDef.DependsOn, d.Tasks[taskName].DependsOn) && taskDef.DependsOn == d.Tasks[taskName].DependsOn && 0 <= $i + 1 && $i + 1 <= len(taskDef.DependsOn) && forall i :: 0 <= i && i <= $i ==> (d.Tasks[taskName].DependsOn[i] in d.Tasks)
 
 //@ func (PipelineDef).Equals
+//@   safety
 //@   ensures [C17.eq] res <==> extEq(d, otherDef)
 //@   modifies nothing
 //@   loop 1 invariant [env] pipelineScalarsEq(d, otherDef) && len(d.Env) == len(otherDef.Env) && forall k string :: $seen[k] ==> (k in d.Env) && (k in otherDef.Env) && d.Env[k] == otherDef.Env[k]
@@ -50,6 +54,7 @@ package definition
 //@ pure pipelineScalarsEq(d PipelineDef, o PipelineDef) bool = d.Concurrency == o.Concurrency && extEq(d.QueueLimit, o.QueueLimit) && d.QueueStrategy == o.QueueStrategy && d.StartDelay == o.StartDelay && d.ContinueRunningTasksAfterFailure == o.ContinueRunningTasksAfterFailure && d.RetentionPeriod == o.RetentionPeriod && d.RetentionCount == o.RetentionCount
 
 //@ func (PipelinesDef).Equals
+//@   safety
 //@   ensures [C17.eq] res <==> extEq(d, otherDefs)
 //@   modifies nothing
 //@   loop 1 invariant [pipelines] len(d.Pipelines) == len(otherDefs.Pipelines) && forall k string :: $seen[k] ==> (k in d.Pipelines) && (k in otherDefs.Pipelines) && extEq(d.Pipelines[k], otherDefs.Pipelines[k])
@@ -64,6 +69,7 @@ package definition
 
 //@ pure validDef(d PipelineDef) bool = d.Concurrency >= 1 && (d.QueueLimit == nil || *d.QueueLimit >= 0) && d.StartDelay >= 0 && !(d.StartDelay > 0 && d.QueueLimit != nil && *d.QueueLimit == 0) && depsOK(d)
 //@ func (*PipelinesDef).Load
+//@   safety
 //@   requires [nonnil] d != nil && d.Pipelines != nil
 //@   ensures  [C17.mergeKeeps] forall k string :: old(k in d.Pipelines) ==> (k in d.Pipelines) && extEq(d.Pipelines[k], old(d.Pipelines[k]))
 //@   ensures  [C17.mergeValid] res == nil ==> forall k string :: (k in d.Pipelines) && !old(k in d.Pipelines) ==> validDef(d.Pipelines[k]) && d.Pipelines[k].SourcePath == path
@@ -73,4 +79,4 @@ package definition
 //@ func (*QueueStrategy).UnmarshalYAML
 //@   trusted the unmarshal callback is an injected function writing the local strategy name; only the mapping of names to constants is of interest and is read off the switch
 
-//@ property C17: definition.*/ensures[C17.*] definition.*/loop* definition.strSliceEquals/*
+//@ property C17: definition.*/ensures[C17.*] definition.*/loop* definition.strSliceEquals/* definition.*/safety
